@@ -5,6 +5,8 @@ From Coq Require Import List ZArith Bool Sorted.
 Import ListNotations.
 From Zn.model Require Import Lines SemDefs Sem.
 From Zn.proofs Require Import LinesProofs SemBase SemStmt SemCalls SemLines.
+From Zn.model Require Lexer Parser.
+From Zn.proofs Require LineStartsProofs.
 Open Scope Z_scope.
 
 (* physical line starts (CR, LF, CRLF, LFCR each end one line) are strictly increasing, for every source *)
@@ -20,6 +22,29 @@ Theorem C18_find_line_idx : forall src cursor, 0 <= cursor ->
   (forall s', nth_error (phys_starts src) (Z.to_nat i + 1) = Some s' -> cursor < s').
 Proof. exact find_line_contains. Qed.
 Print Assumptions C18_find_line_idx.
+
+(* The LEXER's line table is the table of physical lines (model of pkg/syntax lexer + zh tokens, the repaired code: a line
+   break right after a backtick inside a text is left to the text scanner, 7640347).  For every source the front-end model
+   accepts, whatever the fuel — texts and comments spanning lines, CR / LF / CRLF / LFCR, indentation, backtick escapes —
+   the line starts returned with the tree are exactly [phys_starts src].  The two hypotheses are needed (the empty text
+   records no line; the end-of-text mark -1 is not a code point): Examples in proofs/LineStartsProofs.v. *)
+Theorem C18_lexer_lines_are_physical_lines : forall fuel src p ls it,
+  Parser.compile fuel src = Parser.OTree p ls it -> src <> [] -> ~ In Lexer.EOFc src ->
+  map Lexer.l_start ls = phys_starts src.
+Proof. exact LineStartsProofs.compile_lines_are_physical_lines. Qed.
+Print Assumptions C18_lexer_lines_are_physical_lines.
+
+(* ... and in EVERY state the lexer reaches (after NewLexer and after each token, hence also the state in which a syntax
+   error is then raised) the lines recorded so far are the physical line starts up to the cursor *)
+Theorem C18_lexer_lines_up_to_cursor : forall src st, hd Lexer.EOFc src <> Lexer.EOFc -> LineStartsProofs.lex_reach src st ->
+  map Lexer.l_start (Lexer.lines st) = filter (fun s => s <=? Lexer.pos st) (phys_starts src) /\
+  phys_starts src = map Lexer.l_start (Lexer.lines st) ++ starts_from None (Lexer.pos st) (Lexer.rest st).
+Proof. exact LineStartsProofs.lexer_state_lines. Qed.
+Print Assumptions C18_lexer_lines_up_to_cursor.
+
+Example C18_example_break_after_backtick :        (* “`⏎” : the break after the backtick is line 2 *)
+  LineStartsProofs.recorded [8220; 96; 10; 8221] = Some [0; 3] /\ phys_starts [8220; 96; 10; 8221] = [0; 3].
+Proof. exact LineStartsProofs.break_after_backtick_1. Qed.
 
 (* every statement starts executing with the running frame's current line set to its own line *)
 Theorem C18_stmt_line : forall st l, stack st <> [] -> top_line (set_line st l) = l.
